@@ -142,6 +142,7 @@ class Models(object):
         R('Option::is_none', lambda ex, fr, c, a, st, pc: (S.Eq(self.rd(st, a[0]).tag, S.bv(0, 64)), S.TRUE))
         R('Option::is_some', lambda ex, fr, c, a, st, pc: (S.Eq(self.rd(st, a[0]).tag, S.bv(1, 64)), S.TRUE))
         R('Option::map', self.opt_map)
+        self._register_more()
         # --- dashmap
         R('DashMap::new', lambda ex, fr, c, a, st, pc: (MapV(), S.TRUE))
         R('DashMap::insert', self.dm_insert)
@@ -186,6 +187,144 @@ class Models(object):
         opaque = lambda ex, fr, c, a, st, pc: (('fmt', 'opaque'), S.TRUE)
         R('slice::join|Argument::new_display|Argument::new_debug|Arguments::new|Arguments::new_const|<Arc as ToString>::to_string|<OrderType as ToString>::to_string', opaque)
         R('Formatter::write_fmt|Formatter::write_str', lambda ex, fr, c, a, st, pc: (enum_const(0, (UNIT,)), S.TRUE))
+
+    def _register_more(self):
+        """std items that realistic edits of the crate are likely to use"""
+        R = self.reg
+        rd = self.rd
+        b64 = lambda n: S.bv(n, 64)
+
+        def tag_is(o, k):
+            return S.Eq(o.tag, b64(k))
+
+        def payload(o, k):
+            p = o.payloads.get(k, UNDEF)
+            return p[0] if (p is not UNDEF and len(p)) else UNDEF
+
+        # ? operator
+        def opt_branch(ex, fr, c, a, st, pc):
+            o = a[0]
+            v = payload(o, 1)
+            return EnumV(S.Ite(tag_is(o, 1), b64(0), b64(1)), {0: (v,), 1: (none(),)}), S.TRUE
+        R('<Option as Try>::branch', opt_branch)
+        R('<Option as FromResidual>::from_residual', lambda ex, fr, c, a, st, pc: (none(), S.TRUE))
+
+        def res_branch(ex, fr, c, a, st, pc):
+            r = a[0]
+            ok, er = payload(r, 0), payload(r, 1)
+            brk = EnumV(b64(1), {1: (er,)})
+            return EnumV(S.Ite(tag_is(r, 0), b64(0), b64(1)), {0: (ok,), 1: (brk,)}), S.TRUE
+        R('<Result as Try>::branch', res_branch)
+        R('<Result as FromResidual>::from_residual', lambda ex, fr, c, a, st, pc:
+          (EnumV(b64(1), {1: (payload(a[0], 1),)}), S.TRUE))
+        R('<PriceLevelError as From>::from|<T as From>::from|<T as Into>::into', lambda ex, fr, c, a, st, pc: (a[0], S.TRUE))
+
+        # Option helpers
+        def opt_unwrap(ex, fr, c, a, st, pc):
+            o = a[0]
+            bad = S.And(pc, S.Not(tag_is(o, 1)))
+            if bad is not S.FALSE:
+                ex.panics.append((bad, 'called `Option::unwrap()`/expect on a `None` value', fr.fn.name, -1))
+            v = payload(o, 1)
+            if v is UNDEF:
+                return None, None, S.FALSE
+            return v, st, tag_is(o, 1)
+        R('Option::unwrap|Option::expect', opt_unwrap)
+        R('Option::unwrap_or_default', lambda ex, fr, c, a, st, pc:
+          (merge(tag_is(a[0], 1), payload(a[0], 1), S.bv(0, payload(a[0], 1).sort)), S.TRUE))
+        R('Option::as_ref|Option::cloned|Option::copied|Option::as_deref', lambda ex, fr, c, a, st, pc:
+          ((rd(st, a[0]) if isinstance(a[0], RefV) else a[0]), S.TRUE))
+
+        def opt_take(ex, fr, c, a, st, pc):
+            o = rd(st, a[0])
+            self.wr(st, a[0], EnumV(b64(0), dict(o.payloads, **{0: ()})))
+            return o, S.TRUE
+        R('Option::take', opt_take)
+
+        def opt_ok_or(ex, fr, c, a, st, pc):
+            o = a[0]
+            return EnumV(S.Ite(tag_is(o, 1), b64(0), b64(1)), {0: (payload(o, 1),), 1: (a[1],)}), S.TRUE
+        R('Option::ok_or', opt_ok_or)
+
+        # integers
+        def checked(op, ovf):
+            def f(ex, fr, c, a, st, pc):
+                return option(S.Not(ovf(a[0], a[1])), op(a[0], a[1])), S.TRUE
+            return f
+        R('num::checked_add', checked(S.Add, S.AddOvf))
+        R('num::checked_sub', checked(S.Sub, S.SubOvf))
+        R('num::checked_mul', checked(S.Mul, S.MulOvf))
+        R('num::min|<u32 as Ord>::min', lambda ex, fr, c, a, st, pc: (S.Umin(a[0], a[1]), S.TRUE))
+        R('num::max|<u32 as Ord>::max', lambda ex, fr, c, a, st, pc: (S.Umax(a[0], a[1]), S.TRUE))
+        R('num::abs_diff', lambda ex, fr, c, a, st, pc:
+          (S.Ite(S.Ult(a[0], a[1]), S.Sub(a[1], a[0]), S.Sub(a[0], a[1])), S.TRUE))
+        R('num::saturating_mul', lambda ex, fr, c, a, st, pc:
+          (S.Ite(S.MulOvf(a[0], a[1]), S.bv(-1, a[0].sort), S.Mul(a[0], a[1])), S.TRUE))
+        R('num::wrapping_mul', lambda ex, fr, c, a, st, pc: (S.Mul(a[0], a[1]), S.TRUE))
+        R('num::div_ceil', lambda ex, fr, c, a, st, pc:
+          (S.Add(S.UDiv(a[0], a[1]), S.B2BV(S.Not(S.Eq(S.URem(a[0], a[1]), S.bv(0, a[0].sort))), a[0].sort)),
+           S.Not(S.Eq(a[1], S.bv(0, a[1].sort)))))
+        R('<u64 as PartialEq>::eq|<usize as PartialEq>::eq|<&u64 as PartialEq>::eq', lambda ex, fr, c, a, st, pc:
+          (S.Eq(self._deep(st, a[0]), self._deep(st, a[1])), S.TRUE))
+        R('<OrderId as PartialEq>::eq|<&OrderId as PartialEq>::eq|<Side as PartialEq>::eq|<OrderType as PartialEq>::eq',
+          lambda ex, fr, c, a, st, pc: (veq(self._deep(st, a[0]), self._deep(st, a[1])), S.TRUE))
+        R('<OrderId as PartialEq>::ne|<&OrderId as PartialEq>::ne', lambda ex, fr, c, a, st, pc:
+          (S.Not(veq(self._deep(st, a[0]), self._deep(st, a[1]))), S.TRUE))
+
+        # queue / map / vec extras
+        def sq_len(ex, fr, c, a, st, pc):
+            st = ex.shared('queue.len', a[0], st, pc)
+            q = rd(st, a[0])
+            return S.Sum([S.B2BV(S.And(p_, S.Not(pp)), 64) for _, p_, pp, _ in q.entries], 64), st, S.TRUE
+        R('SegQueue::len', sq_len)
+
+        def sq_empty(ex, fr, c, a, st, pc):
+            st = ex.shared('queue.len', a[0], st, pc)
+            q = rd(st, a[0])
+            return S.Not(S.Or([S.And(p_, S.Not(pp)) for _, p_, pp, _ in q.entries])), st, S.TRUE
+        R('SegQueue::is_empty', sq_empty)
+
+        def dm_contains(ex, fr, c, a, st, pc):
+            st = ex.shared('map.get', a[0], st, pc)
+            hit, val, _ = self._lookup(self._map(st, a[0]), rd(st, a[1]))
+            return hit, st, S.TRUE
+        R('DashMap::contains_key', dm_contains)
+        R('Vec::with_capacity', lambda ex, fr, c, a, st, pc: (empty_vec(), S.TRUE))
+        R('Vec::clear', lambda ex, fr, c, a, st, pc: (self.wr(st, a[0], empty_vec()) or UNIT, S.TRUE))
+
+        def vec_pop(ex, fr, c, a, st, pc):
+            v = rd(st, a[0])
+            has = S.Not(S.Eq(v.length, b64(0)))
+            nl = S.Ite(has, S.Sub(v.length, b64(1)), v.length)
+            e = select(v.cells, nl)
+            self.wr(st, a[0], VecV(v.cells, nl))
+            if e is UNDEF:
+                return none(), S.TRUE
+            return option(has, e), S.TRUE
+        R('Vec::pop', vec_pop)
+
+        # atomics extras
+        def at_swap(ex, fr, c, a, st, pc):
+            st = ex.shared('atomic.rmw', a[0], st, pc)
+            old = rd(st, a[0])
+            self.wr(st, a[0], a[1])
+            return old, st, S.TRUE
+        R('Atomic::swap', at_swap)
+        R('Atomic::fetch_max', lambda *x: self.atomic_rmw(S.Umax, *x))
+        R('Atomic::fetch_min', lambda *x: self.atomic_rmw(S.Umin, *x))
+
+        def at_cas(ex, fr, c, a, st, pc):
+            st = ex.shared('atomic.rmw', a[0], st, pc)
+            old = rd(st, a[0])
+            ok = S.Eq(old, a[1])
+            self.wr(st, a[0], S.Ite(ok, a[2], old))
+            return EnumV(S.Ite(ok, b64(0), b64(1)), {0: (old,), 1: (old,)}), st, S.TRUE
+        R('Atomic::compare_exchange|Atomic::compare_exchange_weak', at_cas)
+
+    def _deep(self, st, v):
+        while isinstance(v, RefV):
+            v = self.rd(st, v)
+        return v
 
     # ------------------------------------------------------------------ atomics
     def atomic_load(self, ex, fr, c, a, st, pc):
